@@ -17,7 +17,7 @@ class Refuse(Exception):
 def is_list(t):
     return t in ("LZ", "LQ", "LB")
 
-COQ_TYPE = {"Z": "Z", "Q": "Q", "B": "bool", "S": "string", "LZ": "list Z", "LQ": "list Q", "LB": "list bool"}
+COQ_TYPE = {"X": "XQ.t", "Z": "Z", "Q": "Q", "B": "bool", "S": "string", "LZ": "list Z", "LQ": "list Q", "LB": "list bool"}
 
 def coq_type(t):
     if isinstance(t, tuple):
@@ -106,6 +106,8 @@ class Translator:
                 if a in sp.selfconst:
                     return self.const(ast.Constant(sp.selfconst[a]))
                 raise Refuse("self.%s not in spec" % a)
+            if isinstance(node.value, ast.Name) and node.value.id == "np" and node.attr == "inf":
+                return ("XQ.PInf", "X")
             # x.size
             if node.attr == "size":
                 v, t = self.expr(node.value, env, sp)
@@ -118,6 +120,8 @@ class Translator:
             v, t = self.expr(node.operand, env, sp)
             if isinstance(node.op, ast.Not) and t == "B":
                 return ("(negb %s)" % v, "B")
+            if isinstance(node.op, ast.USub) and t == "X":
+                return ("(XQ.neg %s)" % v, "X")
             if isinstance(node.op, ast.USub) and t == "Z":
                 return ("(- %s)" % v, "Z")
             if isinstance(node.op, ast.USub) and t == "Q":
@@ -180,12 +184,22 @@ class Translator:
         if len(node.ops) != 1:
             raise Refuse("chained comparison")
         a = self.expr(node.left, env, sp)
-        b = self.expr(node.comparators[0], env, sp)
         op = node.ops[0]
+        if isinstance(op, ast.IsNot) and isinstance(node.comparators[0], ast.Constant) and node.comparators[0].value is None:
+            if a[1] in ("X", "Q", "Z"):
+                return ("true", "B")
+            raise Refuse("is not None on %s" % (a[1],))
+        b = self.expr(node.comparators[0], env, sp)
         ta, tb = a[1], b[1]
         if ta == "S" and tb == "S":
             if isinstance(op, ast.Eq): return ("(String.eqb %s %s)" % (a[0], b[0]), "B")
             raise Refuse("string compare")
+        if ta == "X" and tb == "X":
+            f = {ast.Lt: "XQ.ltb", ast.Gt: "XQ.gtb", ast.LtE: "XQ.leb", ast.GtE: "XQ.geb"}.get(type(op))
+            if f: return ("(%s %s %s)" % (f, a[0], b[0]), "B")
+            raise Refuse("X compare")
+        if ta == "X" and isinstance(op, ast.IsNot) and isinstance(node.comparators[0], ast.Constant) and node.comparators[0].value is None:
+            return ("true", "B")
         if ta == "Z" and tb == "Z":
             sym = {ast.Eq: "=?", ast.Lt: "<?", ast.LtE: "<=?", ast.Gt: ">?", ast.GtE: ">=?"}.get(type(op))
             if sym: return ("(%s %s %s)" % (a[0], sym, b[0]), "B")
